@@ -413,6 +413,9 @@ def c02(ck):
             n += 1
             meta[cid] = (name, s, cs)
             lines.append(feed_line(cid, svc, cuts_to_chunks(s, cs)))
+            # the reference caller of test.rs / ping: transient slices, only the returned tail is kept
+            lines.append(feed_line("k" + cid, svc, cuts_to_chunks(s, cs), op="feedcap"))
+        lines.append(feed_line("kw_" + name, svc, [s], op="feedcap"))
     impl, model = run_both(ck, lines, model_ok, shards=14)
     ck.rule = ("byte streams from request sequences (incl. trailing incomplete message, upgrade + arbitrary payload, messages of 8191..40000 bytes) x "
                "segmentations: every single cut and every pair of cuts for short streams, byte-at-a-time, cuts around each NUL and around 8192, random k-cuts; "
@@ -441,6 +444,38 @@ def c02(ck):
             if unhx(fa.get("tail", "-")) != want:
                 ck.failures.append({"what": "returned tail is not the bytes after the last complete message",
                                     "stream": name, "cuts": cs, "tail": fa.get("tail"), "expected": want.hex()})
+    # the slice caller: same replies, same tail, upgraded payload complete - except in the known class
+    # SliceCallerBeyondBlock (decided on the input by the block-buffer model, or from stream length if the model is
+    # unavailable), where it must still behave exactly as that model says
+    slice_ids = ["k" + c for c in meta if not c.startswith("w_")] + ["kw_" + name for name, _, _ in streams]
+    diff_model(ck, slice_ids, impl, model, lambda c: "slice caller, stream %s cuts %s" % (
+        (meta[c[1:]][0], meta[c[1:]][2][:6]) if c[1:] in meta else (c[3:], [])))
+    for kid in slice_ids:
+        name, s, cs = meta[kid[1:]] if kid[1:] in meta else (kid[3:], dict((n, x) for n, _, x in streams)[kid[3:]], [])
+        ck.case("slice|%s|%s" % (name, cs), nontrivial=True)
+        ck.count("slice_caller")
+        res, whole = impl[kid], impl["w_" + name]
+        if "out=" not in res:
+            ck.failures.append({"what": "no result / panic (slice caller)", "stream": name, "cuts": cs, "result": res})
+            continue
+        fa, fw = fields(res), fields(whole)
+        differs = any(fa.get(k) != fw.get(k) for k in ("closed", "upg", "tail")) or not same_out(unhx(fa.get("out")), unhx(fw.get("out")))
+        if not differs:
+            continue
+        uid = kid[1:] if kid[1:] in meta else "w_" + name
+        if kid in model and uid in model:
+            in_class = not same_feed(model[kid], model[uid])
+        else:
+            in_class = len(s) > 8192 and (name.startswith("upg") or name.startswith("bigupg"))
+        if in_class:
+            ck.known_class("SliceCallerBeyondBlock")
+            ck.count("known_class=SliceCallerBeyondBlock")
+        else:
+            ck.failures.append({"what": "a caller that hands handle() transient slices and keeps the returned tail gets a different "
+                                        "result than feeding the stream whole (bytes lost, duplicated or reordered)",
+                                "stream_hex": s.hex() if len(s) < 600 else name, "cuts": cs,
+                                "slice_caller": {k: fa.get(k) if len(fa.get(k, "")) < 400 else fa.get(k)[:400] + ".." for k in ("out", "closed", "upg", "tail")},
+                                "whole": {k: fw.get(k) if len(fw.get(k, "")) < 400 else fw.get(k)[:400] + ".." for k in ("out", "closed", "upg", "tail")}})
     # upgraded handler receives exactly the suffix (echo handler): checked on whole + chunked above through `out`;
     # explicit oracle here:
     for name, svc, s in streams:
